@@ -119,6 +119,11 @@ MERGE_RULES = [S(r'dfa_state_n& s_from = sm\[from\];', '(void)vx_idx(from, b_sm.
                S(r'\btransitions_size\b', '256', name='R9:transitions_size')]
 F('db_merge', r'constexpr\s+void\s+merge\(size_t to,\s*size_t from,\s*bool keep_end_state = false,\s*bool mark_from_as_unreachable = false\)',
   'void db_merge(size_t to, size_t from, bool keep_end_state, bool mark_from_as_unreachable)', scope=DB, rules=MERGE_RULES)
+# the same text once more under a lighter contract for the quick tier: transition targets are *assumed* to be states in use ([L-wf]),
+# which removes the 4 x 256 quantifier; the full contract (well-formedness preserved) is proved in the thorough tier
+F('db_merge_q', r'constexpr\s+void\s+merge\(size_t to,\s*size_t from,\s*bool keep_end_state = false,\s*bool mark_from_as_unreachable = false\)',
+  'void db_merge_q(size_t to, size_t from, bool keep_end_state, bool mark_from_as_unreachable)', scope=DB,
+  rules=[r if getattr(r, 'name', '') != 'R4:recursive call' else S(r'(?<![\w.])merge\(', 'db_merge_q(', name='R4:recursive call') for r in MERGE_RULES])
 
 
 def rep_shift_fragment(body):
@@ -212,4 +217,40 @@ UNIT.facts = [r'constexpr bool test\(size_t idx\) const \{ return data\.test\(id
               r'using dfa = stdex::cvector<dfa_state<N>, N>;', PC.FACTS[-1], PC.FACTS[5]]
 UNIT.typedefs = PC.RT_TYPEDEFS
 apply_spec(UNIT.fns, os.path.join(HERE, '..', 'contracts', 'dfa.spec'))
+for _f in UNIT.fns:
+    if SMALL:                    # the small variant exists for the full contract of merge only (thorough tier)
+        if _f.name != 'db_merge':
+            _f.harness = None
+        else:
+            _f.tier = 'thorough'
+    elif _f.name == 'db_merge':
+        _f.harness = None
 # (dfa_builder::rep: its job finishes neither at 8 nor at 4 states within 25 min; the drafted contract stays in dfa.spec without a harness)
+
+
+from vx import native as _N
+
+
+def _twin_merge(hname):
+    def tw(o):
+        v = _N.trace_vals(o, hname)
+        c = _N.to_int(v.get('c'), 255) & 0xff
+        if c in (0, ord('a'), ord('b'), ord('c')):
+            c = 255
+        return _N.TWIN_HEAD + """#include <string>
+// alternation / star / concatenation are built by merge: the union must keep an edge on every byte either side had one on
+static constexpr char p1[] = "a|\\\\x%02x"; static constexpr char p2[] = "(b|\\\\x%02x)*c"; static constexpr char p3[] = "ab*\\\\x%02x";
+constexpr regex::expr<p1> r1; constexpr regex::expr<p2> r2; constexpr regex::expr<p3> r3;
+int main() {
+    const char B = (char)0x%02x; int bad = 0;
+    auto chk = [&](bool got, const char* what) { if (!got) { ++bad; std::printf("%%s: a string using byte 0x%02x of the pattern is rejected\\n", what); } };
+    chk(r1.match(buffers::string_buffer(std::string(1, B))), "a|\\\\x%02x");
+    chk(r2.match(buffers::string_buffer(std::string(1, B) + "b" + std::string(1, B) + "c")), "(b|\\\\x%02x)*c");
+    chk(r3.match(buffers::string_buffer(std::string("abb") + std::string(1, B))), "ab*\\\\x%02x");
+    return bad ? 1 : 0;
+}""" % ((c,) * 8)
+    return tw
+
+
+UNIT.fn('db_merge_q').twin = _twin_merge('h_db_merge_q')
+UNIT.fn('db_merge').twin = _twin_merge('h_db_merge')
